@@ -3,7 +3,10 @@ use crate::trackers::spatio_temporal_constraints::SpatioTemporalConstraints;
 use crate::trackers::visual_sort::metric::builder::VisualMetricBuilder;
 use crate::trackers::visual_sort::metric::{VisualMetric, VisualSortMetricType};
 use std::collections::HashMap;
+#[cfg(not(similari_verif))]
 use std::sync::RwLock;
+#[cfg(similari_verif)]
+use crate::verif::sync::RwLock;
 
 /// Class that is used to configure the Visual Tracker
 #[derive(Debug, Clone)]
